@@ -4,8 +4,9 @@ Case kinds (all driven on the real lenskit code, DESIGN.md section 4 C15):
   crash : Dataset.save over an old directory, interrupted before effect k (optionally with the k-th
           write truncated), then Dataset.load, classified {fail,new,old,mixture}
   dsrt  : dataset with attributes of every layout: save+load and pickle, observational equality
-  il    : item list through pickle / data frame / Arrow
-  coll  : item-list collection through the native Parquet layout
+  il    : item list through pickle / data frame / Arrow; the list is the end of a history of derivations
+          (copy constructor with overrides, subsetting, clone) from lists that have been used before
+  coll  : item-list collection through the native Parquet layout (lists with such histories)
   key   : generic collection key through __reduce__ / create_key
 Trained models and pipelines (pickle, reload, scores bit-equal) are exercised by `extra`.
 """
@@ -24,16 +25,17 @@ from framework import TranslateError  # noqa: F401
 
 PID = "C15"
 PROPS_FILE = "Props/C15.v"
-GEN_FILES = ["Gen/C15_save.v"]
-MODEL_FILES = ["Model/C15_steps.v", "Model/C15_fs.v", "Model/C15_codec.v"]
+GEN_FILES = ["Gen/C15_save.v", "Gen/C15_state.v"]
+MODEL_FILES = ["Model/C15_steps.v", "Model/C15_fs.v", "Model/C15_codec.v", "Model/C15_derive.v"]
 ALLOWED_AXIOMS: list[str] = []
 SHARD = 120
 CASE_HEADER = ("From Coq Require Import ZArith List Bool String.\n"
-               "From LK Require Import Model.C15_steps Gen.C15_save Model.C15_fs Model.C15_codec.\n"
+               "From LK Require Import Model.C15_steps Gen.C15_save Model.C15_fs Model.C15_codec Model.C15_derive.\n"
                "Open Scope string_scope. Open Scope list_scope.")
 TRUSTED = [
     "Coq 8.16.1 kernel + vm_compute (no native_compute); Print Assumptions of every theorem in Props/C15.v: closed under the global context",
     "extractor harness/translate/c15.py: DataContainer.save/load statement lists (fail closed on any statement outside the effect grammar; file-name literals of save and load must coincide; Dataset.save/load must be plain delegations)",
+    "extractor harness/translate/c15.py (items.py part): attribute set of ItemList, its wholesale __dict__ operations and the guarded statement lists of __getstate__/__setstate__/arrow_types are written out as found; Proofs/C15_state.v compares them by reflexivity with the ones the hand-written model follows",
     "file-system contract: a file is absent, complete, or a strict truncation; a truncated schema.json or Parquet file fails to parse (observed on every truncation case, not proved); rmtree deletes entries one at a time in some order",
     "Parquet / Arrow / pandas / pickle byte formats and conversions are contracts: the hand-written codec model (Model/C15_codec.v) is tied to items.py and collection/*.py by the correspondence cases evaluated inside Coq on exact values (float bit patterns)",
     "harness wrappers around lenskit.data.container.{rmtree,Path.mkdir,open,write_table} and lenskit.data.summary.save_stats used to inject the crash",
@@ -45,9 +47,15 @@ ASSUMPTIONS = [
 ]
 RULE = ("crash: every effect index (and truncation of each write at 2 offsets) of saves over absent / empty / populated / populated+junk / "
         "partially written targets, old and new datasets sharing table names with different contents; codecs: random item lists "
-        "(int / str identifiers, numbers, vocabulary with unknown ids, ordered or not, explicit ranks, 0-3 fields of 12 dtypes incl. NaN, "
-        "-0.0, inf) and collections (1-2 key fields, int or str key values, duplicate keys, empty lists, lists with different fields and "
-        "mixed ordering, batch sizes 1-5000); non-trivial = crash case with a populated old directory and k strictly inside the effect "
+        "(int / str identifiers, numbers, vocabulary with unknown ids, ordered or not, explicit rank arrays of 12 shapes -- ties, "
+        "permutations with the end points of 1..n, gaps, offsets, constant, zero-based ... -- 0-3 fields of 12 dtypes incl. NaN, "
+        "-0.0, inf), each handed to the codec at the end of a HISTORY of 0-3 derivations (copy constructor overriding identifiers / "
+        "vocabulary / ordered / scores / rank / fields incl. removal and another length, subsetting by mask / index / slice / scalar "
+        "incl. to nothing, clone) whose intermediate lists are first USED through the public interface (ids, numbers, ranks, to_df, "
+        "to_arrow in 3 forms, arrow_types, pickle, being added to a collection, subsetting ...); a grid of every rank shape x codec "
+        "and of every use x codec with a derivation that adds or removes a column; collections (1-2 key fields, int or str key "
+        "values, duplicate keys, empty lists, lists with different fields and mixed ordering, lists with histories, batch sizes "
+        "1-5000); non-trivial = crash case with a populated old directory and k strictly inside the effect "
         "list, or a codec case with a non-empty list carrying at least one field, or a collection with >= 2 lists of which one is empty "
         "or differs in fields; distinct = by hash of the case")
 
@@ -118,10 +126,9 @@ def gen_il(rng, idkind=None, allow_nums=True, fields_pool=None, n=None):
         if shape == "ids+nums":
             nums = [i - 100 for i in ids]
     ordered = rng.chance(1, 2)
-    ranks = None
-    if ordered and n and rng.chance(1, 5):
-        start = rng.choice([1, 1, 2, 5])
-        ranks = [start + j * rng.choice([1, 1, 2]) for j in range(n)]
+    ranks, rank_shape = None, None
+    if ordered and n and rng.chance(2, 5):
+        rank_shape, ranks = gen_ranks(rng, n)
     pool = fields_pool or FIELD_NAMES
     nf = rng.weighted([(0, 2), (1, 4), (2, 3), (3, 1)])
     fields = []
@@ -129,15 +136,245 @@ def gen_il(rng, idkind=None, allow_nums=True, fields_pool=None, n=None):
         dt = "f4" if name == "score" else rng.choice(DTYPES)
         fields.append([name, dt, [gen_value(rng, dt) for _ in range(n)]])
     return {"n": n, "idkind": idkind, "ids": ids_field, "nums": nums, "vocab": vocab, "ordered": ordered,
-            "ranks": ranks, "fields": fields}
+            "ranks": ranks, "rank_shape": rank_shape, "fields": fields, "chain": []}
+
+
+RANK_SHAPES = ["default", "ties", "dense-ties", "swap-inside", "perm", "gaps", "offset", "ends-only", "reverse", "constant",
+               "zero-based", "stride"]
+
+
+def gen_ranks(rng, n):
+    """an explicit rank array of length n >= 1: every shape a caller can hand over (rank= field, rank column of a frame/table)"""
+    shape = rng.choice(RANK_SHAPES)
+    if shape == "default":
+        r = list(range(1, n + 1))
+    elif shape == "ties":                       # competition ranks 1,2,2,4: a tied position repeats its predecessor
+        r = list(range(1, n + 1))
+        for j in range(1, n):
+            if rng.chance(1, 3):
+                r[j] = r[j - 1]
+        if n >= 2 and r == list(range(1, n + 1)):
+            j = 1 + rng.below(n - 1)
+            r[j] = r[j - 1]
+    elif shape == "dense-ties":                 # 1,2,2,3
+        r, c = [], 1
+        for j in range(n):
+            r.append(c)
+            c += rng.below(2)
+    elif shape == "swap-inside":                # first and last rank as in 1..n, two positions exchanged
+        r = list(range(1, n + 1))
+        if n >= 4:
+            a = 1 + rng.below(n - 2)
+            b = 1 + rng.below(n - 2)
+            if a == b:
+                b = a + 1 if a + 1 < n - 1 else a - 1
+            r[a], r[b] = r[b], r[a]
+        else:
+            r = rng.shuffle(r)
+    elif shape == "perm":
+        r = rng.shuffle(list(range(1, n + 1)))
+    elif shape == "gaps":
+        r, c = [], 1
+        for j in range(n):
+            r.append(c)
+            c += rng.randint(1, 3)
+    elif shape == "offset":
+        start = rng.choice([2, 3, 5, 100])
+        r = list(range(start, start + n))
+    elif shape == "ends-only":                  # first 1, last n, anything in between
+        r = [1] + [rng.randint(1, n + 2) for _ in range(max(n - 2, 0))] + ([n] if n > 1 else [])
+    elif shape == "reverse":
+        r = list(range(n, 0, -1))
+    elif shape == "constant":
+        r = [rng.choice([1, 1, 3])] * n
+    elif shape == "zero-based":
+        r = list(range(n))
+    else:
+        start = rng.choice([1, 1, 2, 5])
+        r = [start + j * rng.choice([1, 1, 2]) for j in range(n)]
+    return shape, r
+
+
+WARM_OPS = ["ids", "numbers", "ranks", "scores", "len", "to_df", "to_arrow", "to_arrow", "to_arrow+num", "to_arrow-array",
+            "arrow_types", "arrow_types+num", "pickle", "coll-add", "coll-add", "subset", "clone", "str"]
+
+
+def gen_warm(rng):
+    k = rng.weighted([(0, 3), (1, 4), (2, 2), (3, 1)])
+    return [rng.choice(WARM_OPS) for _ in range(k)]
+
+
+def gen_chain(rng, il, dts=None, pool=None, malformed=False):
+    """A history of the list handed to the codec: the list built from `il` is used (public calls that may fill lazily
+    computed state: identifiers, numbers, ranks, Arrow types, conversions), then another list is derived from it (copy
+    constructor with overrides, subsetting, clone), which is used and derived from again ...  The generator follows
+    length, fields and identifier sources so that every step is a valid call (malformed: one override of the wrong length)."""
+    steps = []
+    nsteps = rng.weighted([(0, 4), (1, 4), (2, 2), (3, 1)])
+    n = il["n"]
+    fields = {f[0]: f[1] for f in il["fields"]}
+    has_ids, has_vocab = il["ids"] is not None, il["vocab"] is not None
+    pool = list(pool or FIELD_NAMES)
+    universe = list(range(100, 130))
+    for s in range(nsteps):
+        warm = gen_warm(rng)
+        op = rng.weighted([("derive", 8), ("get", 3), ("clone", 1)])
+        if op == "clone":
+            steps.append({"warm": warm, "op": "clone"})
+            continue
+        if op == "get":
+            how = rng.choice(["mask", "index", "slice", "scalar"]) if n else rng.choice(["mask", "index", "slice"])
+            if how == "mask":
+                idx = [j for j in range(n) if rng.chance(3, 5)] if not rng.chance(1, 8) else []
+                sel = None
+            elif how == "index":
+                idx = [rng.below(n) for _ in range(rng.randint(0, n + 1))] if (n and rng.chance(1, 3)) else rng.sample(list(range(n)), rng.randint(0, n))
+                sel = None
+            elif how == "slice":
+                a, b, c = rng.randint(0, max(n, 1)), rng.randint(0, n + 1), rng.choice([1, 1, 2])
+                sel = [min(a, b), max(a, b), c] if rng.chance(3, 4) else [None, max(a, b), c]
+                idx = list(range(n))[slice(*sel)]
+            else:
+                idx = [rng.below(n)]
+                sel = None
+            steps.append({"warm": warm, "op": "get", "how": how, "idx": idx, "slice": sel})
+            n = len(idx)
+            continue
+        st = {"warm": warm, "op": "derive", "ids": None, "vocab": None, "ordered": None, "scores": None, "rank": None, "fields": []}
+        m = n
+        dropped = []
+        if rng.chance(1, 5):
+            if rng.chance(1, 2):
+                # another length: every field of the source has to go in the same call (new ones may be added)
+                m = rng.choice([0, 1, 2, 4, n + 1])
+                dropped = [x for x in fields if x != "score"]
+                if "score" in fields:
+                    st["scores"] = False
+                fields = {}
+            st["ids"] = rng.sample(universe, m)
+            has_ids = True
+        elif (has_ids or has_vocab) and rng.chance(1, 8):
+            keep = il["ids"] or []
+            st["vocab"] = rng.shuffle(sorted(set(rng.sample(universe, 10)) | set(keep[: len(keep) // 2])))
+            has_ids, has_vocab = True, True
+        st["ordered"] = rng.weighted([(None, 3), (True, 3), (False, 1)])
+        if rng.chance(2, 5):
+            st["scores"] = [gen_value(rng, "f4") for _ in range(m)]
+            fields["score"] = "f4"
+        elif st["scores"] is None and rng.chance(1, 8):
+            st["scores"] = False
+            fields.pop("score", None)
+        if m and rng.chance(1, 4):
+            shape, r = gen_ranks(rng, m)
+            st["rank"], st["rank_shape"] = r, shape
+        names = [x for x in pool if x != "score"]
+        for name in dropped:
+            st["fields"].append([name, None, None])
+        for name in rng.sample([x for x in names if x not in dropped], min(len(names) - len(dropped), rng.weighted([(0, 3), (1, 4), (2, 2)]))):
+            if name in fields and rng.chance(1, 3):
+                st["fields"].append([name, None, None])            # name=False: the field is removed
+                del fields[name]
+            else:
+                dt = (dts or {}).get(name) or (fields.get(name) if rng.chance(1, 2) and name in fields else rng.choice(DTYPES))
+                st["fields"].append([name, dt, [gen_value(rng, dt) for _ in range(m)]])
+                fields[name] = dt
+        rest = [x for x in names if x not in {f[0] for f in st["fields"]}]
+        if rest and rng.chance(1, 10):
+            st["fields"].append([rng.choice(rest), None, None])        # False for a field the source may not have
+            fields.pop(st["fields"][-1][0], None)
+        steps.append(st)
+        n = m
+    if malformed:
+        # one override of the wrong length: the constructor must refuse
+        st = {"warm": gen_warm(rng), "op": "derive", "ids": None, "vocab": None, "ordered": None, "scores": None, "rank": None, "fields": []}
+        how = rng.choice(["rank", "scores", "field"])
+        if how == "rank":
+            st["rank"], st["ordered"] = list(range(1, n + 2)), rng.choice([None, True])
+        elif how == "scores":
+            st["scores"] = [gen_value(rng, "f4") for _ in range(n + 1)]
+        else:
+            st["fields"] = [["w", "i4", [1] * (n + 2)]]
+        steps.append(st)
+        return steps
+    if steps or rng.chance(1, 3):
+        last = gen_warm(rng)
+        if last:
+            steps.append({"warm": last, "op": "none"})
+    return steps
 
 
 def gen_il_case(rng, malformed=False):
     il = gen_il(rng)
     codec = rng.weighted([("pickle", 4), ("df", 3), ("arrow", 3), ("arrow+num", 1), ("arrow-array", 1)])
-    if malformed:
+    bad_chain = malformed and rng.chance(1, 2)
+    if malformed and not bad_chain:
         il["fields"].append([rng.choice(["user_id", "user_num"]), "i8", [7] * il["n"]])
-    return {"kind": "il", "il": il, "codec": codec, "malformed": malformed}
+    il["chain"] = gen_chain(rng.fork("chain"), il, malformed=bad_chain)
+    return {"kind": "il", "il": il, "codec": codec, "malformed": malformed, "bad_chain": bad_chain}
+
+
+CODECS = ["pickle", "df", "arrow", "arrow+num", "arrow-array"]
+WARM_KINDS = sorted(set(WARM_OPS))
+
+
+def gen_rank_grid_case(rng, k):
+    """systematic part: every rank shape through every codec (the random part meets them only by chance)"""
+    shape = RANK_SHAPES[k % len(RANK_SHAPES)]
+    codec = CODECS[(k // len(RANK_SHAPES)) % len(CODECS)]
+    n = [3, 4, 5, 6, 2, 8][(k // 7) % 6]
+    il = gen_il(rng, n=n)
+    for _ in range(20):
+        sh, r = gen_ranks(rng, n)
+        if sh == shape:
+            break
+    il["ordered"], il["ranks"], il["rank_shape"] = True, r, sh
+    if rng.chance(1, 3):
+        il["chain"] = gen_chain(rng.fork("chain"), il)
+    return {"kind": "il", "il": il, "codec": codec, "malformed": False, "bad_chain": False}
+
+
+def gen_history_grid_case(rng, k):
+    """systematic part: a source used in each public way, then a list derived from it that ADDS something (scores, a
+    field, the ordering flag, ranks) or removes a field, through every codec"""
+    use = WARM_KINDS[k % len(WARM_KINDS)]
+    codec = CODECS[(k // len(WARM_KINDS)) % len(CODECS)]
+    il = gen_il(rng, n=rng.choice([1, 2, 3, 5]))
+    if codec == "arrow+num" and il["vocab"] is None and il["nums"] is None:
+        il["nums"] = [i - 100 for i in il["ids"]]
+    il["ordered"], il["ranks"], il["rank_shape"] = rng.chance(1, 3), None, None
+    n = il["n"]
+    have = {f[0] for f in il["fields"]}
+    st = {"warm": [use] + gen_warm(rng)[:1], "op": "derive", "ids": None, "vocab": None, "ordered": None, "scores": None, "rank": None, "fields": []}
+    what = rng.choice(["scores", "field", "ordered", "rank", "drop", "several", "resize"])
+    if what == "resize":
+        n = rng.choice([m for m in (1, 2, 4, n + 1) if m != n])
+        st["ids"] = rng.sample(list(range(100, 130)), n)
+        st["fields"] = [[x, None, None] for x in sorted(have - {"score"})]
+        if "score" in have:
+            st["scores"] = False
+        have = set()
+        il["ordered"] = True
+        if rng.chance(1, 2):
+            st["scores"] = [gen_value(rng, "f4") for _ in range(n)]
+    if what in ("scores", "several") and "score" not in have:
+        st["scores"] = [gen_value(rng, "f4") for _ in range(n)]
+    if what in ("field", "several", "scores"):
+        free = [x for x in FIELD_NAMES if x != "score" and x not in have]
+        if free:
+            dt = rng.choice(DTYPES)
+            st["fields"].append([rng.choice(free), dt, [gen_value(rng, dt) for _ in range(n)]])
+    if what in ("ordered", "several"):
+        st["ordered"] = True
+    if what == "rank":
+        st["rank_shape"], st["rank"] = gen_ranks(rng, n)
+    if what == "drop" and have - {"score"}:
+        st["fields"].append([sorted(have - {"score"})[0], None, None])
+    elif what == "drop":
+        st["scores"] = False
+    il["chain"] = [st]
+    if rng.chance(1, 3):
+        il["chain"].append({"warm": gen_warm(rng), "op": "none"})
+    return {"kind": "il", "il": il, "codec": codec, "malformed": False, "bad_chain": False}
 
 
 def gen_coll_case(rng, malformed=False):
@@ -167,11 +404,14 @@ def gen_coll_case(rng, malformed=False):
             il["fields"] = [[name, dts[name], [gen_value(rng, dts[name]) for _ in range(il["n"])]] for name in pool[:2]]
         if malformed and rng.chance(1, 3):
             il["idkind"] = "str" if idkind == "int" else "int"       # identifier type conflict
+        if style != "uniform":
+            il["chain"] = gen_chain(rng.fork(("chain", len(lists))), il, dts=dts, pool=pool)
         lists.append(il)
         keys.append([rng.randint(1, 4) for _ in kf])
     if malformed and lists and rng.chance(1, 2):
         k = rng.below(len(lists))
         lists[k]["ids"], lists[k]["vocab"], lists[k]["nums"] = None, None, list(range(lists[k]["n"]))   # numbers only
+        lists[k]["chain"] = []
     batch = rng.choice([1, 2, 3, 5000, 5000])
     return {"kind": "coll", "kf": kf, "keykind": keykind, "keys": keys, "lists": lists, "batch": batch, "style": style, "malformed": malformed}
 
@@ -244,6 +484,10 @@ def gen_cases(rng, tier):
         cases.append({"kind": "dsrt", "ds": gen_ds(r, "R%d" % k, r.choice(["int", "str"]), r.chance(1, 2))})
     for k in range(230 if quick else 3500):
         cases.append(gen_il_case(rng.fork(("il", k)), malformed=(k % 12 == 11)))
+    for k in range(len(RANK_SHAPES) * len(CODECS) * (1 if quick else 6)):
+        cases.append(gen_rank_grid_case(rng.fork(("il-ranks", k)), k))
+    for k in range(len(WARM_KINDS) * len(CODECS) * (1 if quick else 6)):
+        cases.append(gen_history_grid_case(rng.fork(("il-history", k)), k))
     for k in range(130 if quick else 2000):
         cases.append(gen_coll_case(rng.fork(("coll", k)), malformed=(k % 10 == 9)))
     for k in range(30 if quick else 300):
@@ -343,6 +587,108 @@ def _build_il(spec):
     return ItemList(ordered=spec["ordered"], **kw)
 
 
+def _id_array(kind, ids, as_list=False):
+    if kind == "str":
+        return [_mkid("str", i) for i in ids] if as_list else np.array([_mkid("str", i) for i in ids], dtype=object)
+    return np.array(ids, dtype=np.int32 if kind == "int32" else np.int64)
+
+
+def _warm(il, op):
+    """use a list through its public interface (fills whatever the list computes lazily); failures that the
+    interface documents (no identifiers / numbers, unknown identifiers) are part of the use"""
+    try:
+        if op == "ids":
+            il.ids()
+        elif op == "numbers":
+            il.numbers(missing="negative")
+        elif op == "ranks":
+            il.ranks()
+        elif op == "scores":
+            il.scores()
+        elif op == "len":
+            len(il)
+        elif op == "str":
+            str(il)
+        elif op == "to_df":
+            il.to_df()
+        elif op == "to_arrow":
+            il.to_arrow()
+        elif op == "to_arrow+num":
+            il.to_arrow(numbers=True)
+        elif op == "to_arrow-array":
+            il.to_arrow(type="array")
+        elif op == "arrow_types":
+            il.arrow_types()
+        elif op == "arrow_types+num":
+            il.arrow_types(numbers=True)
+        elif op == "pickle":
+            pickle.dumps(il)
+        elif op == "coll-add":
+            ItemListCollection(["user_id"]).add(il, 1)
+        elif op == "subset":
+            il[: max(len(il) - 1, 0)]
+        elif op == "clone":
+            il.clone()
+        else:
+            raise ValueError(op)
+    except (KeyError, RuntimeError, TypeError):
+        pass
+
+
+class ChainRefused(Exception):
+    pass
+
+
+def _run_chain(il, spec, warm=True):
+    """the list at the end of the history spec["chain"] that starts with `il`"""
+    kind = spec["idkind"]
+    for st in spec.get("chain", []):
+        if warm:
+            for w in st["warm"]:
+                _warm(il, w)
+        op = st["op"]
+        if op == "none":
+            continue
+        if op == "clone":
+            il = il.clone()
+        elif op == "get":
+            idx, how = st["idx"], st["how"]
+            if how == "mask":
+                m = np.zeros(len(il), dtype=bool)
+                m[idx] = True
+                sel = m
+            elif how == "index":
+                sel = np.array(idx, dtype=np.int64) if len(idx) % 2 else [int(i) for i in idx]
+                if not len(idx):
+                    sel = np.array([], dtype=np.int64)
+            elif how == "slice":
+                sel = slice(*st["slice"])
+            else:
+                sel = int(idx[0])
+            il = il[sel]
+        else:
+            kw = {}
+            if st["ids"] is not None:
+                kw["item_ids"] = _id_array(kind, st["ids"], as_list=(kind == "str" and len(st["ids"]) % 2 == 0))
+            if st["vocab"] is not None:
+                kw["vocabulary"] = Vocabulary([_mkid("str" if kind == "str" else "int", i) for i in st["vocab"]], reorder=False)
+            if st["ordered"] is not None:
+                kw["ordered"] = st["ordered"]
+            if st["scores"] is False:
+                kw["scores"] = False
+            elif st["scores"] is not None:
+                kw["scores"] = _to_array("f4", st["scores"])
+            if st["rank"] is not None:
+                kw["rank"] = np.array(st["rank"], dtype=np.int32)
+            for name, dt, vals in st["fields"]:
+                kw[name] = False if dt is None else _to_array(dt, vals)
+            try:
+                il = ItemList(il, **kw)
+            except (TypeError, ValueError) as e:
+                raise ChainRefused(_errname(e) + ": " + str(e)[:100])
+    return il
+
+
 def _state(il):
     """internal state of an item list, as the model's input"""
     ids = None if il._ids is None else [_unid(x) for x in il._ids.tolist()]
@@ -395,11 +741,14 @@ def _il_roundtrip(il, codec):
 
 
 def run_il(case):
-    il = _build_il(case["il"])
-    st = _state(il)
-    before = _observe(il)
-    # _observe resolves ids/numbers through the vocabulary, which caches them; rebuild for a clean object
-    il = _build_il(case["il"])
+    spec = case["il"]
+    st = _state(_build_il(spec))
+    try:
+        before = _observe(_run_chain(_build_il(spec), spec))
+        # _observe resolves ids/numbers through the vocabulary, which caches them; rebuild for a clean object
+        il = _run_chain(_build_il(spec), spec)
+    except ChainRefused as e:
+        return {"state": st, "before": None, "after": None, "error": "derive:" + str(e).split(":")[0], "msg": str(e)[:120]}
     try:
         il2 = _il_roundtrip(il, case["codec"])
     except (KeyError, TypeError, RuntimeError, ValueError, AssertionError) as e:
@@ -420,10 +769,12 @@ def run_coll(case):
     try:
         c = ItemListCollection(case["kf"])
         for key, spec in zip(case["keys"], case["lists"]):
-            il = _build_il(spec)
-            states.append(_state(il))
-            before.append(_observe(_build_il(spec)))
+            states.append(_state(_build_il(spec)))
+            il = _run_chain(_build_il(spec), spec)
+            before.append(_observe(_run_chain(_build_il(spec), spec)))
             c.add(il, *[_mkkey(case["keykind"], v) for v in key])
+    except ChainRefused as e:
+        return {"states": states, "before": before, "after": None, "error": "derive:" + str(e).split(":")[0], "msg": str(e)[:120]}
     except (TypeError, ValueError) as e:
         return {"states": states, "before": before, "after": None, "error": "add:" + _errname(e), "msg": str(e)[:120]}
     d = tempfile.mkdtemp(prefix="c15c")
@@ -817,28 +1168,65 @@ def _intlike(fs):
     return all(all(isinstance(v, int) for v in f[2]) for f in fs)
 
 
+# which lazily computed state a public use may fill (model side; Props/C15.v caches_do_not_leak shows the result of a
+# history does not depend on these steps, so the mapping only has to be plausible, not exact)
+WARM_MODEL = {"ids": ["WIds"], "numbers": ["WNums"], "ranks": ["WRanks"], "to_df": ["WIds", "WNums", "WRanks"],
+              "to_arrow": ["WIds", "WRanks"], "to_arrow-array": ["WIds", "WRanks"], "to_arrow+num": ["WIds", "WNums", "WRanks"],
+              "pickle": ["WIds", "WNums"]}
+IDTY = {"int": ID_INT64, "str": ID_STR, "int32": ID_INT32}
+
+
+def c_fov(dt, vals):
+    return "FDrop" if dt is None else f"(FSet (mkCol {c_ty(dt)} {c_lz(vals)}))"
+
+
+def c_steps(spec):
+    out = []
+    for st in spec.get("chain", []):
+        for w in st["warm"]:
+            out += [f"SWarm {m}" for m in WARM_MODEL.get(w, [])]
+        op = st["op"]
+        if op == "clone":
+            out.append("SClone")
+        elif op == "get":
+            out.append(f"SGet {clist(st['idx'], cnat)}")
+        elif op == "derive":
+            sc = "None" if st["scores"] is None else ("(Some FDrop)" if st["scores"] is False else f"(Some {c_fov('f4', st['scores'])})")
+            fs = clist(st["fields"], lambda f: f"({cstr(f[0])}, {c_fov(f[1], f[2])})")
+            out.append(f"SDerive (mkOv {c_olz(st['ids'])} {cnat(IDTY[spec['idkind']])} {c_olz(st['vocab'])} {copt(st['ordered'], cbool)} "
+                       f"{sc} {c_olz(st['rank'])} {fs})")
+    return "[" + "; ".join(out) + "]"
+
+
+def c_oobs(o):
+    return "None" if o is None else f"(Some {c_obs(o)})"
+
+
 def term_il(case, obs):
     if not _intlike(obs["state"]["fields"]):
         return None
     il = c_ilist(obs["state"])
-    rt = {"pickle": f"pickle_rt {il}", "df": f"df_rt {il}", "arrow": f"arrow_rt {il} true false",
-          "arrow+num": f"arrow_rt {il} true true", "arrow-array": f"arrow_rt {il} true false"}[case["codec"]]
-    o = "None" if obs["after"] is None else f"(Some {c_obs(obs['after'])})"
-    return f"agree_obs ({rt}) {o}"
+    ss = c_steps(case["il"])
+    rt = {"pickle": f"chain_pickle {il} {ss}", "df": f"chain_df {il} {ss}", "arrow": f"chain_arrow {il} {ss} false",
+          "arrow+num": f"chain_arrow {il} {ss} true", "arrow-array": f"chain_arrow {il} {ss} false"}[case["codec"]]
+    # the history itself (the list handed to the codec), then the round trip
+    return f"agree_obs (chain_run {il} {ss}) {c_oobs(obs['before'])} && agree_obs ({rt}) {c_oobs(obs['after'])}"
 
 
 def term_coll(case, obs):
     if obs["error"] and obs["error"].startswith("add:") and len(obs["states"]) < len(case["lists"]):
         # the failing add never produced a state; rebuild what is known: model only the prefix + expect failure at add
         return None
-    items = clist(list(zip(case["keys"], obs["states"])), lambda ks: f"({c_lz(ks[0])}, {c_ilist(ks[1])})")
+    if obs["error"] and obs["error"].startswith("derive:"):
+        return None
+    items = clist(list(zip(case["keys"], obs["states"], case["lists"])), lambda ks: f"({c_lz(ks[0])}, ({c_ilist(ks[1])}, {c_steps(ks[2])}))")
     kf = clist(case["kf"], cstr)
     if obs["after"] is None:
         o = "None"
     else:
         a = obs["after"]
         o = f"(Some ({clist(a['kf'], cstr)}, {clist(list(zip(a['keys'], a['lists'])), lambda kl: f'({c_lz(kl[0])}, {c_obs(kl[1])})')}))"
-    return f"agree_coll (coll_rt {cnat(min(case['batch'], 4999))} {kf} {items}) {o}"
+    return f"agree_coll (chain_coll {cnat(min(case['batch'], 4999))} {kf} {items}) {o}"
 
 
 def term_key(case, obs):
@@ -958,13 +1346,18 @@ def _cmp_list(b, a, what, ids=True, nums=True, tag=""):
 def oracle_il(case, obs):
     codec = case["codec"]
     b = obs["before"]
-    st = obs["state"]
-    if case.get("malformed"):
+    if case.get("malformed") and b is not None:
         # a field named user_id / user_num is dropped by from_df (documented); everything else must still hold
         b = dict(b)
         if codec == "df":
             b["fields"] = [f for f in b["fields"] if f[0] not in ("user_id", "user_num")]
-    unknown = st["vocab"] is not None and b["nums"] is not None and any(x < 0 for x in b["nums"])
+    if (obs["error"] or "").startswith("derive:"):
+        if case.get("bad_chain"):
+            return []          # an override of the wrong length is refused by the constructor
+        return [(f"{obs['error']}", f"deriving the list handed to the codec raised: {obs.get('msg')}")]
+    if case.get("bad_chain"):
+        return [("derive:wrong-length-accepted", "the copy constructor accepted an array whose length differs from the list's")]
+    unknown = b["nums"] is not None and any(x < 0 for x in b["nums"])
     if obs["after"] is None:
         e = obs["error"]
         if codec in ("df", "arrow+num") and unknown and e == "EKey":
@@ -989,7 +1382,10 @@ def oracle_coll(case, obs):
     idtys = {s["idty"] for s in obs["states"] if s["len"] > 0}
     if obs["after"] is None:
         e = obs["error"]
-        if e.startswith("add:") and (len(idtys) > 1 or len(obs["states"]) < len(case["lists"])) and case.get("malformed"):
+        if e.startswith("derive:"):
+            return [(f"collection:{e}", f"deriving a list of the collection raised: {obs.get('msg')}")]
+        kinds = {l["idkind"] for l in case["lists"]}
+        if e.startswith("add:") and (len(idtys) > 1 or len(kinds) > 1 or len(obs["states"]) < len(case["lists"])) and case.get("malformed"):
             return []          # identifier types differ between lists: refused at add time
         if numbers_only and case.get("malformed"):
             return []          # numbers-only lists cannot be stored by identifier: any refusal is acceptable
@@ -1082,7 +1478,8 @@ def nontrivial(case, obs):
     if k == "dsrt":
         return obs["n_attrs"] >= 1
     if k == "il":
-        return obs["state"]["len"] > 0 and len(obs["state"]["fields"]) >= 1 and obs["after"] is not None
+        b = obs["before"]
+        return b is not None and b["len"] > 0 and len(b["fields"]) >= 1 and obs["after"] is not None
     if k == "coll":
         ls = obs["states"]
         return obs["after"] is not None and len(ls) >= 2 and (any(s["len"] == 0 for s in ls) or len({tuple(sorted(f[0] for f in s["fields"])) for s in ls}) > 1)
@@ -1111,7 +1508,9 @@ def counters(case, obs):
         yield "il:ordered=" + str(st["ordered"])
         if st["ranks"] is not None:
             yield "il:explicit-ranks"
+            yield "il:ranks=" + str(case["il"].get("rank_shape"))
         yield "il:result=" + (obs["error"] or "ok")
+        yield from _chain_counters("il", case["il"])
         for f in st["fields"]:
             yield "il:dtype=" + f[1]
     elif k == "coll":
@@ -1127,6 +1526,15 @@ def counters(case, obs):
             yield "coll:lists-differ-in-fields"
         if len({s["ordered"] for s in obs["states"]}) > 1:
             yield "coll:mixed-ordering"
+        seen = set()
+        for l in case["lists"]:
+            for c in _chain_counters("coll", l):
+                if c not in seen:
+                    seen.add(c)
+                    yield c
+            if l.get("ranks") is not None and "r" + str(l.get("rank_shape")) not in seen:
+                seen.add("r" + str(l.get("rank_shape")))
+                yield "coll:ranks=" + str(l.get("rank_shape"))
     elif k == "dsrt":
         yield "dsrt:attrs=" + str(obs["n_attrs"])
         for e in ("item", "user"):
@@ -1137,19 +1545,105 @@ def counters(case, obs):
         yield "vocab:size=" + str(min(len(case["ids"]), 6))
 
 
+def _chain_counters(tag, spec):
+    chain = spec.get("chain", [])
+    ops = [st for st in chain if st["op"] != "none"]
+    yield f"{tag}:history-steps={len(ops)}"
+    warmed = False
+    for st in chain:
+        for w in st["warm"]:
+            yield f"{tag}:used-before={w}"
+        if st["op"] == "get":
+            yield f"{tag}:derive=subset-{st['how']}" + ("-empty" if not st["idx"] else "")
+        elif st["op"] == "clone":
+            yield f"{tag}:derive=clone"
+        elif st["op"] == "derive":
+            for k in ("ids", "vocab", "ordered", "scores", "rank"):
+                if st[k] is not None:
+                    yield f"{tag}:derive={k}" + ("=False" if st[k] is False else "")
+            if st["rank"] is not None:
+                yield f"{tag}:ranks=" + str(st.get("rank_shape"))
+            for f in st["fields"]:
+                yield f"{tag}:derive=" + ("drop-field" if f[1] is None else "field")
+        if st["op"] != "none" and st["warm"]:
+            warmed = True
+    if warmed:
+        yield f"{tag}:derived-from-used-source"
+
+
 def sample(case, obs):
     s = json.dumps({"case": case, "observation": obs}, default=str)
     return json.loads(s) if len(s) < 6000 else {"case_kind": case["kind"], "note": "sample too large; see replays / corpus", "size": len(s)}
 
 
+_SHRUNK: dict = {}
+SHRINK_CAP = 6          # at most this many failing inputs are minimised per run (each attempt re-runs the case):
+                        # one per distinct set of oracle keys (the recorded findings recur on many cases)
+
+
+def _shrink_chain(spec, fails_spec):
+    """drop whole steps, then uses, then overrides of the history of one list while the failure stays"""
+    chain = spec.get("chain", [])
+    if not chain:
+        return spec
+    budget = [24]
+
+    def ok(ch):
+        if budget[0] <= 0:
+            return False
+        budget[0] -= 1
+        return fails_spec({**spec, "chain": ch})
+    # any step may go: a history that becomes invalid (lengths) simply does not reproduce the same key
+    for i in range(len(chain)):
+        if ok(chain[:i] + chain[i + 1:]):
+            return _shrink_chain({**spec, "chain": chain[:i] + chain[i + 1:]}, fails_spec)
+    for i in range(len(chain)):
+        for j in range(len(chain[i]["warm"])):
+            ch = [dict(st) for st in chain]
+            ch[i]["warm"] = chain[i]["warm"][:j] + chain[i]["warm"][j + 1:]
+            if ok(ch):
+                return _shrink_chain({**spec, "chain": ch}, fails_spec)
+    for i in range(len(chain)):
+        if chain[i]["op"] != "derive":
+            continue
+        for k in ("vocab", "ordered", "scores", "rank"):
+            if chain[i][k] is not None:
+                ch = [dict(st) for st in chain]
+                ch[i][k] = None
+                if ok(ch):
+                    return _shrink_chain({**spec, "chain": ch}, fails_spec)
+        for j in range(len(chain[i]["fields"])):
+            ch = [dict(st) for st in chain]
+            ch[i]["fields"] = chain[i]["fields"][:j] + chain[i]["fields"][j + 1:]
+            if ok(ch):
+                return _shrink_chain({**spec, "chain": ch}, fails_spec)
+    return spec
+
+
 def shrink(case, fails):
-    if case["kind"] == "coll" and len(case["lists"]) > 1:
-        idx = common.shrink_list(list(range(len(case["lists"]))),
-                                 lambda xs: bool(xs) and fails({**case, "lists": [case["lists"][i] for i in xs], "keys": [case["keys"][i] for i in xs]}), 30)
-        return {**case, "lists": [case["lists"][i] for i in idx], "keys": [case["keys"][i] for i in idx]}
-    if case["kind"] == "il" and case["il"]["fields"]:
-        fs = common.shrink_list(case["il"]["fields"], lambda xs: fails({**case, "il": {**case["il"], "fields": xs}}), 10)
-        return {**case, "il": {**case["il"], "fields": fs}}
+    try:
+        keys = tuple(sorted({k for k, _ in oracle(case, run_impl(case))}))
+    except Exception:
+        keys = ("?",)
+    if keys in _SHRUNK or len(_SHRUNK) >= SHRINK_CAP:
+        return case
+    _SHRUNK[keys] = 1
+    if case["kind"] == "coll" and len(case["lists"]) >= 1:
+        if len(case["lists"]) > 1:
+            idx = common.shrink_list(list(range(len(case["lists"]))),
+                                     lambda xs: bool(xs) and fails({**case, "lists": [case["lists"][i] for i in xs], "keys": [case["keys"][i] for i in xs]}), 30)
+            case = {**case, "lists": [case["lists"][i] for i in idx], "keys": [case["keys"][i] for i in idx]}
+        for i in range(len(case["lists"])):
+            def with_spec(sp, i=i):
+                return {**case, "lists": case["lists"][:i] + [sp] + case["lists"][i + 1:]}
+            case = with_spec(_shrink_chain(case["lists"][i], lambda sp: fails(with_spec(sp))))
+        return case
+    if case["kind"] == "il":
+        il = _shrink_chain(case["il"], lambda sp: fails({**case, "il": sp}))
+        case = {**case, "il": il}
+        if not il.get("chain") and il["fields"]:
+            fs = common.shrink_list(il["fields"], lambda xs: fails({**case, "il": {**il, "fields": xs}}), 10)
+            case = {**case, "il": {**il, "fields": fs}}
     return case
 
 
